@@ -55,6 +55,11 @@ CHECKS = {
    technique="TLA+ type-reference graphs (TypeGraph.tla): TLC checks SelfRequiring => ~Finite on every graph and emits each graph with both predicates; graphs printed as projects and replayed (Check 104 iff demanded, Example terminates with valid JSON)",
    text="TypeGraph.tla defines Finite (least fixpoint, choices are OR) and SelfRequiring (root reaches itself through mandatory plain references) over graphs of 3 types with up to 2 properties out of 16 kinds, and rings with chords of 4-6 types; TLC checks the theorem and fixpoint lemmas on all of them (42k quick, ~2.6M thorough) and emits every graph. Every graph with a cycle or an infinite/self-requiring root (others sampled) is printed as a project with the root registered under its own name: Check() must not return 104 when the root is finite, must return it when the root is self-requiring, and Example() of an accepted project must return RFC 8259 JSON within 5 s.",
    note="Key-shortcut properties are not edges. Nothing is demanded for infinite roots that are not self-requiring through plain references. The printer and the 104 classification (error code) are trusted."),
+ "C01": dict(
+   category="model_checking", design_ref="DESIGN.md §3 C01",
+   technique="TLA+ project builder with rule semantics (SchemaModel.tla, RuleSemantics.tla, SchemaModelExtra.tla): TLC enumerates every project with its demanded verdict; each printed and Check()ed",
+   text="RuleSemantics.tla gives the documented meaning of min/max (with exclusivity), precision, minLength/maxLength, regex, minItems/maxItems over catalogues with exact decimal denotations (boundary neighbours 9.99/10/10.0/10.00/10.01/10.001, -0/0, lengths around limits, escapes) and sanity lemmas; SchemaModel.tla builds, by builder actions, every project skeleton (root, property, array item, `or` rule-set, type reference, type reference inside `or`) x value x canonical rule subset and computes the verdict over every example value (the type's own example included); SchemaModelExtra.tla does the same for enum, const, nullable, string formats and two-alternative `or`, printing the schema text in TLA+. ~100k (quick) / ~1M (thorough) projects are replayed: a violating example accepted, or a satisfying one rejected with a value-reason code, is a violation.",
+   note="Accept-expected projects answered with a structural code are inconclusive (the model's compatibility table was calibrated until they are 0.01%). A value referring to a type is generated with the JSON kind of the type's example; null examples of nullable nodes have no verdict. Regex/format semantics on catalogue samples only."),
 }
 
 REASON_PENDING = "check not built yet in this round (design in DESIGN.md §3); no claim is made"
